@@ -11,7 +11,7 @@ def witness_cases(var):
     out = []
     for flv in (False, True):
         for how in (1, 2, 3):
-            base = lambda stop, sched: [var, 1, 1000, True, [], [stop], sched + G.drain(1, 3), [0], flv, how]
+            base = lambda stop, sched: [var, 1, 1000, True, [], [stop], sched + G.drain(1, 3), [0], flv, how, False]
             out.append(base(0, [[A, 0]] * 3 + [[K, 0]] * 3 + [[C, 0]] * 3))                 # lost wake-up window
             out.append(base(0, [[K, 0]] * 3 + [[A, 0]] * 3 + [[C, 0]] * 3))                 # attach after close
             out.append(base(1, [[A, 0]] * 3 + [[S, 0]] + [[K, 0]] * 3 + [[S, 0]]))          # stop racing with the sweep
